@@ -17,9 +17,9 @@ import (
 
 // One public call made on the UConn before Handshake.
 type opDesc struct {
-	Op     string  `json:"op"`     // ApplyPreset Build BuildNoSess SetClientRandom SetSNI RemoveSNI EditSuites EditSessionId ExtInsert ExtRemove ExtALPN
+	Op     string  `json:"op"`     // ApplyPreset Build BuildNoSess SetClientRandom SetSNI RemoveSNI EditSuites EditSessionId ExtInsert ExtRemove ExtALPN ExtSNIField
 	R      []int   `json:"r"`      // SetClientRandom
-	Name   []int   `json:"name"`   // SetSNI
+	Name   []int   `json:"name"`   // SetSNI, ExtSNIField
 	Kind   string  `json:"kind"`   // EditSuites: set | append | droplast
 	List   []int   `json:"list"`   // EditSuites set
 	V      int     `json:"v"`      // EditSuites append
@@ -32,12 +32,13 @@ type opDesc struct {
 }
 
 type scn struct {
-	Sc     int      `json:"sc"`
-	ID     string   `json:"id"`     // ClientHelloID name, "Custom" (hand-written spec) or "Custom:<parrot>" (HelloCustom + that parrot's spec)
-	Server string   `json:"server"` // plain | hrr | hrrcookie
-	Cookie []int    `json:"cookie"` // HRR cookie bytes (server hrrcookie)
-	Sess   bool     `json:"sess"`   // a TLS 1.3 session of an earlier connection to the same server is in the client's cache
-	Ops    []opDesc `json:"ops"`
+	Sc         int      `json:"sc"`
+	ID         string   `json:"id"`         // ClientHelloID name, "Custom" (hand-written spec) or "Custom:<parrot>" (HelloCustom + that parrot's spec)
+	Server     string   `json:"server"`     // plain | hrr | hrrcookie
+	Cookie     []int    `json:"cookie"`     // HRR cookie bytes (server hrrcookie)
+	SkipVerify bool     `json:"skipverify"` // Config.InsecureSkipVerify (scenarios with names no certificate carries, or no name at all)
+	Sess       bool     `json:"sess"`       // a TLS 1.3 session of an earlier connection to the same server is in the client's cache
+	Ops        []opDesc `json:"ops"`
 }
 
 // ---------------------------------------------------------------- client construction
@@ -195,6 +196,18 @@ func applyOp(u *tls.UConn, o *opDesc, specFn func() (*tls.ClientHelloSpec, error
 		name := string(hlib.Unints(o.Name))
 		obs["norm"] = hlib.Ints([]byte(tls.VerifHostnameInSNI(name)))
 		u.SetSNI(name)
+	case "ExtSNIField":
+		// a direct edit of the SNIExtension object in UConn.Extensions
+		name := string(hlib.Unints(o.Name))
+		obs["norm"] = hlib.Ints([]byte(tls.VerifHostnameInSNI(name)))
+		n := 0
+		for _, e := range u.Extensions {
+			if x, ok := e.(*tls.SNIExtension); ok {
+				x.ServerName = name
+				n++
+			}
+		}
+		obs["found"] = n
 	case "RemoveSNI":
 		err = u.RemoveSNIExtension()
 	case "EditSuites":
@@ -303,7 +316,7 @@ func runScn(s scn, rawScn json.RawMessage, pk *hlib.PKI, certs []tls.Certificate
 		emit(map[string]any{"ev": "Error", "err": err.Error()})
 		return
 	}
-	ccfg := &tls.Config{ServerName: "example.com", RootCAs: pk.Pool, OmitEmptyPsk: true}
+	ccfg := &tls.Config{ServerName: "example.com", RootCAs: pk.Pool, OmitEmptyPsk: true, InsecureSkipVerify: s.SkipVerify}
 	scfg := &tls.Config{Certificates: certs, MinVersion: tls.VersionTLS10, MaxVersion: tls.VersionTLS13}
 	group := 0
 	if s.Server == "hrr" || s.Server == "hrrcookie" {
